@@ -728,11 +728,11 @@ def run(ctx):
     rng = np.random.default_rng(1800 + ctx.seed)
     _SEED_BASE[0] = 1800 + ctx.seed
 
-    # 1. TLC: the state machine with the repaired design must satisfy every invariant ...
+    # 1. TLC: the state machine of the current code (after the fix: commits) must satisfy every invariant ...
     acts = ("New", "Reject", "UpdateTo", "AtTimes", "AtTimesStep")
     ctx.model_check("MC_C18", "MC_quick.cfg" if quick else "MC_thorough.cfg", name="evolution-histories",
                     require_actions=acts)
-    # ... and the book-keeping of the pinned commit must be refuted (self-tests of the model)
+    # ... and the book-keeping of the four defective behaviours (two fixed, two open) must be refuted
     T.run_tlc("C18_SelfCheck", "SelfCheck.cfg", ctx.spec_dir, workers=1, scratch=ctx.scratch)  # reference definitions
     selftests = (("MC_dev_expmdop.cfg", "Schrodinger"), ("MC_dev_solve2.cfg", "SupportedAccepted"),
                  ("MC_dev_progbar.cfg", "AcceptsAllowedTimes"))
